@@ -763,6 +763,8 @@ class ExprMixin:
 
     def ev_Dict(self, n, st):
         hint = getattr(n, '_dict_hint', None)
+        if hint is None and not n.keys and '{}' in self.c.locals:
+            hint = self.eng.ptype(self.c.locals['{}'])
         if self.spec:
             raise Unsupported('dict literal in spec')
         if hint is None:
